@@ -77,6 +77,9 @@ func effectRule(c *Ctx, fns []*ssa.Function) {
 			case *ssa.MapUpdate:
 				r := e.classifyMap(x.Map, 0)
 				construct := "map update of " + valueDesc(p, x.Map)
+				if !r.OK && p.pureMemoUpdate(x) {
+					r = effectVerdict{true, "a table that remembers, under its complete input, the result of deterministic library functions: what it holds for a key does not depend on the request that filled it"}
+				}
 				if r.OK {
 					c.ok(name, construct, p.ipos(i), r.Why)
 				} else {
@@ -335,7 +338,90 @@ func traceCond(v ssa.Value) (isTrace bool, pol bool) {
 
 var pureCalls = map[string]bool{
 	"fmt.Sprintf": true, "fmt.Sprint": true, "strings.Join": true, "builtin.len": true, "builtin.cap": true,
-	"strconv.Itoa": true, "fmt.Sprintln": true,
+	"strconv.Itoa": true, "fmt.Sprintln": true, "builtin.min": true, "builtin.max": true,
+	// read-only accessors of the request
+	"(net/http.Header).Get": true, "(net/http.Header).Values": true, "(*net/url.URL).String": true, "(*net/url.URL).EscapedPath": true,
+	"(*net/url.URL).Query": true, "(net/url.Values).Get": true, "(*net/http.Request).UserAgent": true, "(*net/http.Request).Referer": true,
+	"strings.Repeat": true, "strings.ToLower": true, "strings.ToUpper": true, "strings.TrimSpace": true, "strings.Trim": true, "strings.Split": true,
+	"strings.Contains": true, "strings.HasPrefix": true, "strings.HasSuffix": true, "strings.Index": true, "strconv.Quote": true, "strconv.FormatInt": true,
+	"time.Now": true, "time.Since": true, "(time.Time).Sub": true, "(time.Duration).String": true,
+}
+
+// inTraceRegion: b is only reached through the "tracing is on" edge of a test of the trace flag.
+func inTraceRegion(b *ssa.BasicBlock) bool {
+	for d := b.Idom(); d != nil; d = d.Idom() {
+		iff, ok := d.Instrs[len(d.Instrs)-1].(*ssa.If)
+		if !ok {
+			continue
+		}
+		isT, pol := traceCond(iff.Cond)
+		if !isT {
+			continue
+		}
+		on := d.Succs[0]
+		if !pol {
+			on = d.Succs[1]
+		}
+		if len(on.Preds) == 1 && on.Dominates(b) {
+			return true
+		}
+	}
+	return false
+}
+
+// logOnlyClosure: the function literal only reads, formats and calls the logger. Returns the reason when it does more.
+func logOnlyClosure(p *Program, cl *ssa.Function) string {
+	local := map[ssa.Value]bool{}
+	eachInstr(cl, func(i ssa.Instruction) {
+		if a, ok := i.(*ssa.Alloc); ok {
+			local[a] = true
+		}
+	})
+	bad := ""
+	for _, b := range cl.Blocks {
+		for _, ins := range b.Instrs {
+			switch y := ins.(type) {
+			case *ssa.Alloc, *ssa.FieldAddr, *ssa.Field, *ssa.IndexAddr, *ssa.Index, *ssa.MakeInterface, *ssa.ChangeInterface,
+				*ssa.ChangeType, *ssa.Convert, *ssa.Slice, *ssa.Extract, *ssa.BinOp, *ssa.Jump, *ssa.Phi, *ssa.DebugRef, *ssa.TypeAssert, *ssa.Lookup, *ssa.If, *ssa.Return:
+			case *ssa.UnOp:
+				if y.Op == token.ARROW {
+					bad = "channel receive"
+				}
+			case *ssa.Store:
+				root := y.Addr
+				for {
+					if ia, ok := root.(*ssa.IndexAddr); ok {
+						root = ia.X
+						continue
+					}
+					if fa, ok := root.(*ssa.FieldAddr); ok {
+						root = fa.X
+						continue
+					}
+					break
+				}
+				if !local[root] {
+					bad = "store to memory outside the closure at " + p.ipos(ins)
+				}
+			case *ssa.Call:
+				cn := calleeName(&y.Call)
+				switch {
+				case y.Call.IsInvoke() && isNamed(y.Call.Value.Type(), modulePath+"/log", "StdLogger"):
+				case strings.HasPrefix(cn, modulePath+"/log."):
+				case pureCalls[cn]:
+				case y.Call.IsInvoke() && (y.Call.Method.Name() == "String" || y.Call.Method.Name() == "Error") && y.Call.Signature().Params().Len() == 0:
+				default:
+					if cal := y.Call.StaticCallee(); cal != nil && p.inModule(cal) && (isPureLogger(p, cal) || isPureFunc(p, cal, 0, map[*ssa.Function]bool{})) {
+						break
+					}
+					bad = "call of " + shortCallee(&y.Call) + " at " + p.ipos(ins)
+				}
+			default:
+				bad = "instruction " + ins.String() + " at " + p.ipos(ins)
+			}
+		}
+	}
+	return bad
 }
 
 func ruleC19d(c *Ctx) {
@@ -383,7 +469,7 @@ func ruleC19d(c *Ctx) {
 					case *ssa.Alloc:
 						localAlloc[y] = true
 					case *ssa.UnOp, *ssa.FieldAddr, *ssa.Field, *ssa.IndexAddr, *ssa.Index, *ssa.MakeInterface, *ssa.ChangeInterface,
-						*ssa.ChangeType, *ssa.Convert, *ssa.Slice, *ssa.Extract, *ssa.BinOp, *ssa.Jump, *ssa.Phi, *ssa.DebugRef, *ssa.TypeAssert, *ssa.Lookup:
+						*ssa.ChangeType, *ssa.Convert, *ssa.Slice, *ssa.Extract, *ssa.BinOp, *ssa.Jump, *ssa.Phi, *ssa.DebugRef, *ssa.TypeAssert, *ssa.Lookup, *ssa.MakeSlice:
 						if u, ok := y.(*ssa.UnOp); ok && u.Op == token.ARROW {
 							bad = "channel receive"
 						}
@@ -409,6 +495,32 @@ func ruleC19d(c *Ctx) {
 						bad = "the tracing region leaves the function at " + p.ipos(ins)
 					case *ssa.RunDefers:
 						bad = "the tracing region leaves the function at " + p.ipos(ins)
+					case *ssa.MakeClosure:
+						// a function literal: fine when it is only deferred (checked at the defer)
+						for _, r := range referrers(y) {
+							if _, isDefer := r.(*ssa.Defer); !isDefer {
+								if _, isDbg := r.(*ssa.DebugRef); !isDbg {
+									bad = "a function literal made under tracing is used other than by defer at " + p.ipos(ins)
+								}
+							}
+						}
+					case *ssa.Defer:
+						// a deferred trace line: the closure only logs (reads, formats, calls the logger; no recover, no writes to what it captures)
+						mc, isMC := y.Call.Value.(*ssa.MakeClosure)
+						cl, _ := func() (*ssa.Function, bool) {
+							if !isMC {
+								return nil, false
+							}
+							f, ok := mc.Fn.(*ssa.Function)
+							return f, ok
+						}()
+						if cl == nil || len(y.Call.Args) != 0 {
+							bad = "deferred call at " + p.ipos(ins) + " is not a logging closure"
+							break
+						}
+						if why := logOnlyClosure(p, cl); why != "" {
+							bad = "the closure deferred at " + p.ipos(ins) + " does more than log: " + why
+						}
 					case *ssa.Call:
 						cn := calleeName(&y.Call)
 						switch {
@@ -416,6 +528,8 @@ func ruleC19d(c *Ctx) {
 						case strings.HasPrefix(cn, modulePath+"/log."):
 						case pureCalls[cn]:
 						case y.Call.IsInvoke() && (y.Call.Method.Name() == "String" || y.Call.Method.Name() == "Error") && y.Call.Signature().Params().Len() == 0:
+						case (cn == "builtin.append" || cn == "builtin.copy") && newEffectCtx(p).classifySlice(y.Call.Args[0], 0).OK:
+							// building the text of the message in a slice allocated for it
 						default:
 							if cal := y.Call.StaticCallee(); cal != nil && p.inModule(cal) && (isPureLogger(p, cal) || isPureFunc(p, cal, 0, map[*ssa.Function]bool{})) {
 								break // logging, or a function that only computes a value (Len(), a String() for the message)
